@@ -2095,6 +2095,17 @@ PPL::MIP_Problem::solve_mip(bool& have_incumbent_solution,
       // In this way we are sure that we will return every time
       // a feasible point if requested by the user.
       incumbent_solution_point = p;
+      if (!have_incumbent_solution) {
+        // A feasible point of a node whose relaxation is unbounded: the
+        // whole MIP problem is feasible (hence unbounded); record it,
+        // so that the ancestors do not report unfeasibility.
+        mip.evaluate_objective_function(p, tmp_coeff1, tmp_coeff2);
+        assign_r(incumbent_solution_value.get_num(), tmp_coeff1,
+                 ROUND_NOT_NEEDED);
+        assign_r(incumbent_solution_value.get_den(), tmp_coeff2,
+                 ROUND_NOT_NEEDED);
+        have_incumbent_solution = true;
+      }
       return mip_status;
     }
     if (!have_incumbent_solution
